@@ -12,7 +12,7 @@ TRUSTED = ["harness recorder/replay", "oracle in harness/props/C02.py"]
 ASSUMPTIONS = ["built-in specifications only (user-defined ones with wrong localization are outside this property)",
                "the theorem is conditional on the localization soundness of each constraint (C08) — see the Lean file"]
 
-BUILTIN_SOFT = ["pattern", "pattern", "gcwin", "gcwin", "stop", "kmers", "terminal", "hairpin", "keep_edits", "insert"]
+BUILTIN_SOFT = ["pattern", "pattern", "gcwin", "gcwin", "stop", "kmers", "terminal", "hairpin", "keep_edits", "insert", "regex"]
 
 
 def strip_user(d):
@@ -68,8 +68,34 @@ def protected_kmers_vs_objective(rng):
     return dict(sequence=seq, constraints=cons, objectives=objs, settings=problems.rand_settings(rng), np_seed=rng.randint(0, 10 ** 6))
 
 
+def regex_vs_objective(rng):
+    """a forbidden regular expression given without a size (its matches are longer than its text) against an objective
+    that rewards writing the one missing nucleotide of an occurrence, at either end of it"""
+    from gen import hard
+    expr, inst = rng.choice([("A{6}", "AAAAAA"), ("A{8}", "AAAAAAAA"), ("T{6}", "TTTTTT"), ("(GC){3}", "GCGCGC"),
+                             ("[AT]{6}", "".join(rng.choice("AT") for _ in range(6))), ("C{5,}", "CCCCCC")])
+    n = rng.randint(len(inst) + 2, 30)
+    seq = list(hard.rand_seq(rng, n))
+    i = rng.randint(0, n - len(inst))
+    st = rng.choice([1, 1, 0, -1])
+    word = inst if st != -1 else hard.rc(inst)
+    seq[i:i + len(inst)] = word
+    j = i + rng.choice([0, len(inst) - 1, rng.randint(0, len(inst) - 1)])
+    missing = seq[j]
+    seq[j] = rng.choice([c for c in "ATGC" if c != missing and (expr != "[AT]{6}" or c in "GC")])
+    seq = "".join(seq)
+    cons = [dict(kind="regex", expr=expr, location=None if st == 0 else [0, n, st], wrapped=rng.random() < 0.5)]
+    objs = [dict(kind="sequence_obj", sequence=missing, location=[j, j + 1, 1], boost=rng.choice([1, 2]))]
+    if rng.random() < 0.3:
+        objs.append(dict(kind="keep_obj", location=None, boost=0.5))
+    return dict(sequence=seq, constraints=cons, objectives=objs, settings=problems.rand_settings(rng), np_seed=rng.randint(0, 10 ** 6))
+
+
 def gen_cases(rng, n):
     for i in range(n):
+        if i % 10 == 3:
+            yield dict(desc=regex_vs_objective(rng), op="optimize", pre_ops=("resolve",))
+            continue
         if i % 10 == 7:
             yield dict(desc=protected_kmers_vs_objective(rng), op="optimize", pre_ops=("resolve",))
             continue
